@@ -85,6 +85,23 @@ pub enum Req {
     AddBlock(usize),
     /// tracker.remove_block of the last block added by an AddBlock request
     RmBlock,
+    /// Node::persist_all (maintenance API: writes node, channels, tracker and allowlist to the store)
+    PersistAll,
+    /// protocol level, through a real RootHandler with a VelocityApprover: the PreapproveKeysend arm
+    /// (has_payment, approver, add_keysend) for payment hash [x; 32]
+    RPreKeysend(u8),
+    /// the PreapproveInvoice arm (has_payment, allowlist, approver, add_invoice) for prepared invoice x
+    RPreInvoice(u8),
+    /// the NewChannel / ForgetChannel arms for (PEER, dbid)
+    RNewChan(u64),
+    RForget(u64),
+    /// the TipInfo arm (height and tip hash read in one tracker section)
+    RTipInfo,
+    /// the GetHeartbeat arm (the signed heartbeat carries the wall-clock time: the reply is reduced to its
+    /// length, the node-level `heartbeat` request compares height and tip)
+    RHeartbeat,
+    /// ChannelHandler (protocol version 4) arm SignLocalCommitmentTx2 for holder commitment 0
+    HSignLocal(usize),
 }
 
 impl Req {
@@ -106,6 +123,13 @@ impl Req {
             Req::SignOnchain => "unchecked_sign_onchain_tx",
             Req::AddBlock(_) => "add_block",
             Req::RmBlock => "remove_block",
+            Req::PersistAll => "persist_all",
+            Req::RPreKeysend(_) => "add_keysend",
+            Req::RPreInvoice(_) => "add_invoice",
+            Req::RNewChan(_) => "new_channel",
+            Req::RForget(_) => "forget_channel",
+            Req::RTipInfo | Req::RHeartbeat => "get_heartbeat",
+            Req::HSignLocal(_) => "channel_request",
         }
     }
     pub fn line(&self, tid: usize) -> String {
@@ -133,6 +157,14 @@ impl Req {
             Req::SignOnchain => format!("req {} signonchain", tid),
             Req::AddBlock(c) => format!("req {} addblock {}", tid, c),
             Req::RmBlock => format!("req {} rmblock", tid),
+            Req::PersistAll => format!("req {} persistall", tid),
+            Req::RPreKeysend(x) => format!("req {} rprekeysend {}", tid, x),
+            Req::RPreInvoice(x) => format!("req {} rpreinvoice {}", tid, x),
+            Req::RNewChan(d) => format!("req {} rnewchan {}", tid, d),
+            Req::RForget(d) => format!("req {} rforget {}", tid, d),
+            Req::RTipInfo => format!("req {} rtipinfo", tid),
+            Req::RHeartbeat => format!("req {} rheartbeat", tid),
+            Req::HSignLocal(c) => format!("req {} hsignlocal {}", tid, c),
         }
     }
     pub fn parse(toks: &[&str]) -> Option<(usize, Req)> {
@@ -163,6 +195,14 @@ impl Req {
             "signonchain" => Req::SignOnchain,
             "addblock" => Req::AddBlock(arg()? as usize),
             "rmblock" => Req::RmBlock,
+            "persistall" => Req::PersistAll,
+            "rprekeysend" => Req::RPreKeysend(arg()? as u8),
+            "rpreinvoice" => Req::RPreInvoice(arg()? as u8),
+            "rnewchan" => Req::RNewChan(arg()?),
+            "rforget" => Req::RForget(arg()?),
+            "rtipinfo" => Req::RTipInfo,
+            "rheartbeat" => Req::RHeartbeat,
+            "hsignlocal" => Req::HSignLocal(arg()? as usize),
             _ => return None,
         };
         Some((tid, r))
@@ -325,6 +365,68 @@ struct World {
     /// blocks added by AddBlock requests (std mutex: harness bookkeeping, not a lock of the signer)
     blocks: std::sync::Mutex<Vec<bitcoin::Block>>,
     coinbase_ctr: std::sync::atomic::AtomicU32,
+    /// a real RootHandler (protocol version 4) whose approver is a VelocityApprover over a refusing
+    /// delegate, and that approver (its velocity is part of the final state)
+    root: Option<(vls_protocol_signer::handler::RootHandler, Arc<RootApprover>)>,
+}
+
+/// a clock that never moves and has no lock
+pub struct FixedClock(std::time::Duration);
+impl lightning_signer::SendSync for FixedClock {}
+impl lightning_signer::util::clock::Clock for FixedClock {
+    fn now(&self) -> std::time::Duration {
+        self.0
+    }
+}
+
+type RootApprover =vls_protocol_signer::approver::VelocityApprover<vls_protocol_signer::approver::NegativeApprover>;
+
+fn is_root_req(q: &Req) -> bool {
+    matches!(q, Req::RPreKeysend(_) | Req::RPreInvoice(_) | Req::RNewChan(_) | Req::RForget(_) | Req::RTipInfo | Req::RHeartbeat)
+}
+
+/// a RootHandler on the node with a velocity approver (its own constant clock: the approver's windows do
+/// not depend on how many times the node's clock was read)
+fn root_handler(node: &Arc<Node>) -> Option<(vls_protocol_signer::handler::RootHandler, Arc<RootApprover>)> {
+    use lightning_signer::util::velocity::{VelocityControl, VelocityControlIntervalType, VelocityControlSpec};
+    use vls_protocol::msgs::{self, Message};
+    use vls_protocol_signer::handler::{InitHandler, RootHandler};
+    // (ManualClock keeps its time behind a mutex of the signer's kind: a constant clock has no lock)
+    let clock = Arc::new(FixedClock(std::time::Duration::from_secs(1_700_000_000)));
+    let control = VelocityControl::new(VelocityControlSpec { limit_msat: 1_000_000_000, interval_type: VelocityControlIntervalType::Hourly });
+    let appr = Arc::new(RootApprover::new(clock, control, vls_protocol_signer::approver::NegativeApprover()));
+    let mut init = InitHandler::new(0, node.clone(), appr.clone(), 4);
+    let m = msgs::HsmdInit {
+        key_version: vls_protocol::model::Bip32KeyVersion { pubkey_version: 0, privkey_version: 0 },
+        chain_params: lightning_signer::bitcoin::BlockHash::all_zeros(),
+        encryption_key: None,
+        dev_privkey: None,
+        dev_bip32_seed: None,
+        dev_channel_secrets: None,
+        dev_channel_secrets_shaseed: None,
+        hsm_wire_min_version: 2,
+        hsm_wire_max_version: 4,
+    };
+    let (done, _) = init.handle(Message::HsmdInit(m)).ok()?;
+    if !done {
+        return None;
+    }
+    let root: RootHandler = init.into();
+    Some((root, appr))
+}
+
+fn root_handle(w: &World, msg: vls_protocol::msgs::Message) -> String {
+    use vls_protocol_signer::handler::Handler;
+    match &w.root {
+        None => "noroot".into(),
+        Some((root, _)) => match root.handle(msg) {
+            Ok(reply) => {
+                let v = reply.as_vec();
+                format!("ok {}", &hex::encode(&v)[..80.min(v.len() * 2)])
+            }
+            Err(e) => format!("err:{:?}", e).chars().take(140).collect(),
+        },
+    }
 }
 
 fn mk_tx(inputs: Vec<bitcoin::OutPoint>, tag: u32) -> bitcoin::Transaction {
@@ -624,7 +726,7 @@ fn build_world(sc: &Scenario) -> World {
     let mut pay_commits = Vec::new();
     let needs = |f: &dyn Fn(&Req) -> bool| sc.threads.iter().flatten().any(|q| f(q));
     let need_plain = needs(&|q| matches!(q, Req::Validate(_) | Req::HVal(_, _) | Req::Refused(_)));
-    let need_handler = needs(&|q| matches!(q, Req::HVal(_, _)));
+    let need_handler = needs(&|q| matches!(q, Req::HVal(_, _) | Req::HSignLocal(_)));
     let mut commits_b = Vec::new();
     let mut handlers = Vec::new();
     let need_pay = needs(&|q| matches!(q, Req::PayHv(_)));
@@ -721,7 +823,8 @@ fn build_world(sc: &Scenario) -> World {
     tx_ctx.add_wallet_output(&node_ctx, SpendType::P2wpkh, 2, 999_000);
     let tx = tx_ctx.to_tx();
     let invoices = (0..3u8).map(|x| make_current_test_invoice(x, 10_000 + x as u64)).collect();
-    World { clock, invoices, store, node_ctx, chans, commits, commits_b, handlers, pay_commits, onchain: (tx, tx_ctx), stub, blocks: std::sync::Mutex::new(Vec::new()), coinbase_ctr }
+    let root = if needs(&is_root_req) { root_handler(&node_ctx.node) } else { None };
+    World { clock, invoices, store, node_ctx, chans, commits, commits_b, handlers, pay_commits, onchain: (tx, tx_ctx), stub, blocks: std::sync::Mutex::new(Vec::new()), coinbase_ctr, root }
 }
 
 fn status_str<T>(r: &Result<T, lightning_signer::util::status::Status>) -> String {
@@ -1009,6 +1112,55 @@ fn do_req(w: &World, r: &Req) -> String {
                 }
             }
         }
+        Req::PersistAll => {
+            node.persist_all();
+            "ok".into()
+        }
+        Req::RPreKeysend(x) => {
+            use vls_protocol::model::{PubKey, Sha256};
+            use vls_protocol::msgs::{self, Message};
+            root_handle(w, Message::PreapproveKeysend(msgs::PreapproveKeysend {
+                destination: PubKey(make_test_pubkey(2).serialize()),
+                payment_hash: Sha256([*x; 32]),
+                amount_msat: 1000 * (*x as u64 + 1),
+            }))
+        }
+        Req::RPreInvoice(x) => {
+            use vls_protocol::msgs::{self, Message};
+            let s = match &w.invoices[*x as usize % w.invoices.len()] {
+                lightning_signer::invoice::Invoice::Bolt11(inv) => inv.to_string(),
+                _ => return "noinvoice".into(),
+            };
+            root_handle(w, Message::PreapproveInvoice(msgs::PreapproveInvoice { invstring: vls_protocol::serde_bolt::WireString(s.into_bytes()) }))
+        }
+        Req::RNewChan(d) => {
+            use vls_protocol::msgs::{self, Message};
+            root_handle(w, Message::NewChannel(msgs::NewChannel { peer_id: vls_protocol::model::PubKey(PEER), dbid: *d }))
+        }
+        Req::RForget(d) => {
+            use vls_protocol::msgs::{self, Message};
+            root_handle(w, Message::ForgetChannel(msgs::ForgetChannel { node_id: vls_protocol::model::PubKey(PEER), dbid: *d }))
+        }
+        Req::RTipInfo => {
+            use vls_protocol::msgs::{self, Message};
+            root_handle(w, Message::TipInfo(msgs::TipInfo {}))
+        }
+        Req::RHeartbeat => {
+            use vls_protocol::msgs::{self, Message};
+            let r = root_handle(w, Message::GetHeartbeat(msgs::GetHeartbeat {}));
+            if r.starts_with("ok ") { "ok".into() } else { r }
+        }
+        Req::HSignLocal(c) => match w.handlers.get(*c).and_then(|h| h.as_ref()) {
+            Some(h) => {
+                use vls_protocol::msgs::{self, Message};
+                use vls_protocol_signer::handler::Handler;
+                match h.handle(Message::SignLocalCommitmentTx2(msgs::SignLocalCommitmentTx2 { commitment_number: 0 })) {
+                    Ok(reply) => format!("ok {}", &hex::encode(reply.as_vec())[..24.min(reply.as_vec().len() * 2)]),
+                    Err(e) => format!("err:{:?}", e).chars().take(140).collect(),
+                }
+            }
+            None => "nochan".into(),
+        },
         Req::Onchain => {
             let (tx, c) = &w.onchain;
             let r = node.check_onchain_tx(tx, &[], &c.prev_outs, &c.iuckeys, &c.opaths);
@@ -1078,6 +1230,10 @@ fn digest(w: &World) -> String {
         let t = node.get_tracker();
         s += &format!(" tracker h={} listeners={}", t.height(), t.listeners.len());
     }
+    if let Some((_, appr)) = &w.root {
+        // the approver's velocity control: charged once per approved payment in every sequential order
+        s += &format!(" approver_vel={}", appr.control().velocity());
+    }
     // the persisted state: last record written per key
     s += &format!(" STORE[{}]", w.store.stored());
     s
@@ -1103,6 +1259,9 @@ fn classify(w: &World) -> HashMap<usize, String> {
         let _ = node.add_keysend(make_test_pubkey(3), PaymentHash([0xEE; 32]), 0);
         let _ = node.add_invoice(make_current_test_invoice(0xEE, 1));
     });
+    if let Some((_, appr)) = &w.root {
+        probe("approver".into(), &|| drop(appr.control()));
+    }
     let ids: Vec<ChannelId> = node.get_channels().keys().cloned().collect();
     for (rank, id) in ids.iter().enumerate() {
         // BTreeMap iteration order = ChannelId order = the rank used for slot instances
@@ -1384,7 +1543,7 @@ fn run_scenario_inproc(sc: &Scenario, sched: Sched, seed: u64, order: Option<Vec
                         .entry(e.addr)
                         .or_insert_with(|| {
                             let in_setup = matches!(sc.threads[tid].get(cur_req[tid]), Some(Req::SetupChan));
-                            let creates = sc.threads.iter().flatten().any(|q| matches!(q, Req::SetupChan | Req::NewChan(_)));
+                            let creates = sc.threads.iter().flatten().any(|q| matches!(q, Req::SetupChan | Req::NewChan(_) | Req::RNewChan(_)));
                             if in_setup && holds_slot[tid] > 0 {
                                 format!("monitor {}", 100 + n)
                             } else if creates {
@@ -1471,7 +1630,7 @@ fn base(class: &str) -> &str {
 /// Request kinds whose rows of the generated lock table are NOT rank-increasing (the complement of
 /// `subKinds` in lean/VlsModel/Props/C20.lean; finding F11).  A deadlock in which none of the blocked
 /// requests is of such a kind contradicts `C20_partial` and gets its own violation kind.
-pub const CYCLIC_KINDS: &[&str] = &["add_block", "remove_block"];
+pub const CYCLIC_KINDS: &[&str] = &["add_block", "remove_block", "persist_all"];
 
 pub fn describe_deadlock(sc: &Scenario, trace: &[Ev], replies: &[(usize, usize, String)]) -> (String, String) {
     let n = sc.threads.len();
@@ -1555,12 +1714,27 @@ pub fn describe_deadlock(sc: &Scenario, trace: &[Ev], replies: &[(usize, usize, 
     }
     let cls = classes.into_iter().collect::<Vec<_>>().join("<->");
     let via = kinds.iter().cloned().collect::<Vec<_>>().join(" x ");
-    let kind = if kinds.iter().any(|k| CYCLIC_KINDS.contains(k)) {
+    let kind = if kinds.contains("persist_all") {
+        // finding F11d: whatever the other requests are, the inverted order is persist_all's
+        "deadlock:persist_all-holds-node_state".to_string()
+    } else if kinds.iter().any(|k| CYCLIC_KINDS.contains(k)) {
         format!("deadlock:{}", cls)
     } else {
         format!("deadlock-among-ordered-requests:{}", cls)
     };
     (format!("{} (requests: {})", parts.join(" "), via), kind)
+}
+
+/// the digest without the ` approver_vel=<n>` segment
+fn strip_approver(digest: &str) -> String {
+    match digest.find(" approver_vel=") {
+        None => digest.to_string(),
+        Some(a) => {
+            let rest = &digest[a + 1..];
+            let b = rest.find(' ').map(|k| a + 1 + k).unwrap_or(digest.len());
+            format!("{}{}", &digest[..a], &digest[b..])
+        }
+    }
 }
 
 fn mem_part(digest: &str) -> &str {
@@ -1633,6 +1807,10 @@ fn serial_orders(lens: &[usize]) -> Vec<Vec<usize>> {
 // ------------------------------------------------------------------------------------------------
 
 pub struct C20 {
+    /// quick tier (a third of the generated pairs per run) or thorough (all of them)
+    quick: bool,
+    /// run seed (selects the third)
+    seed: u64,
     /// scenario text -> outcomes (replies, final state) of every sequential order
     serial_cache: RefCell<HashMap<String, Vec<(Vec<(usize, usize, String)>, String, bool)>>>,
     /// case text -> result of the run done while generating the case
@@ -1881,7 +2059,7 @@ impl C20 {
                 // a forget_channel raised the mark)
                 let hwm: u64 = r.final_state.strip_prefix("hwm=").and_then(|t| t.split(' ').next()).and_then(|t| t.parse().ok()).unwrap_or(0);
                 let reuse = sc.threads.iter().flatten().any(|q| match q {
-                    Req::NewChan(d) => *d <= hwm && r.final_state.contains(&format!("/oid{}=stub;", d)),
+                    Req::NewChan(d) | Req::RNewChan(d) => *d <= hwm && r.final_state.contains(&format!("/oid{}=stub;", d)),
                     _ => false,
                 });
                 // setup_channel made a channel ready although a concurrent forget_channel of its stub was
@@ -1895,6 +2073,10 @@ impl C20 {
                         "forgotten-channel-resurrected:setup_channel".into()
                     } else if reuse {
                         "id-reuse:new_channel-after-forget".into()
+                    } else if serial.iter().any(|(rep, fin, ok)| *ok && rep == mine.0 && strip_approver(fin) == strip_approver(mine.1)) {
+                        // replies, node, channels, tracker and store are those of a sequential order; only
+                        // the velocity charged to the front end's VelocityApprover is not (finding F11e)
+                        "non-serializable-outcome:approver-velocity".into()
                     } else if serial.iter().any(|(rep, fin, ok)| *ok && rep == mine.0 && mem_part(fin) == mem_part(mine.1)) {
                         // replies and in-memory state are those of a sequential order, the STORED state
                         // (what a restart reads back) is not the one of that order
@@ -1983,6 +2165,32 @@ impl C20 {
     }
 }
 
+#[path = "gen_pairs.rs"]
+mod gen_pairs;
+
+/// one representative request per request kind of the generated lock table (None: the harness has no
+/// request of that kind, or it needs a preceding request — remove_block)
+pub fn kind_representative(kind: &str) -> Option<Req> {
+    Some(match kind {
+        "channel_request" => Req::Validate(0),
+        "channel_base_request" => Req::Point(0),
+        "forget_channel" => Req::Forget(0),
+        "channel_balance" => Req::Balance,
+        "chaninfo" => Req::Chaninfo,
+        "check_onchain_tx" => Req::Onchain,
+        "unchecked_sign_onchain_tx" => Req::SignOnchain,
+        "new_channel" => Req::NewChan(50),
+        "setup_channel" => Req::SetupChan,
+        "get_heartbeat" => Req::Heartbeat,
+        "add_invoice" => Req::Invoice(1),
+        "add_keysend" => Req::Keysend(1),
+        "add_allowlist" => Req::Allow(0),
+        "add_block" => Req::AddBlock(0),
+        "persist_all" => Req::PersistAll,
+        _ => return None,
+    })
+}
+
 fn gen_scenario(rng: &mut Rng) -> Scenario {
     let nchan = rng.range(1, 3) as usize;
     let stub = rng.chance(1, 4);
@@ -1995,7 +2203,7 @@ fn gen_scenario(rng: &mut Rng) -> Scenario {
         let mut v = Vec::new();
         for _ in 0..len {
             let c = rng.below(nchan as u64) as usize;
-            let r = match rng.below(40) {
+            let r = match rng.below(41) {
                 0..=3 => Req::Validate(c),
                 4 => Req::SignCp(c),
                 5 => Req::SignHolder(c),
@@ -2021,6 +2229,7 @@ fn gen_scenario(rng: &mut Rng) -> Scenario {
                 33 => Req::PayCp1(c),
                 34..=35 => Req::PayHv(c),
                 36..=37 => Req::HVal(c, rng.below(2) as u8),
+                40 => Req::PersistAll,
                 _ => Req::Refused(c),
             };
             v.push(r);
@@ -2083,7 +2292,7 @@ impl Group for C20 {
     }
     fn budget(&self, tier: Tier) -> usize {
         match tier {
-            Tier::Quick => 700,
+            Tier::Quick => 350,
             Tier::Thorough => 50_000,
         }
     }
@@ -2152,10 +2361,45 @@ impl Group for C20 {
             p(1, false, Req::Onchain, Req::Onchain),
             p(1, false, Req::SignOnchain, Req::Forget(0)),
             p(1, false, Req::AddBlock(0), Req::Forget(0)),
+            // protocol level (real RootHandler arms, velocity approver): duplicate and mixed approvals,
+            // channel creation against forgetting, tip info against a block
+            p(1, false, Req::RPreInvoice(1), Req::RPreInvoice(1)),
+            p(1, false, Req::RPreKeysend(1), Req::RPreKeysend(1)),
+            p(1, false, Req::RPreInvoice(1), Req::RPreKeysend(2)),
+            p(1, false, Req::RPreInvoice(1), Req::Invoice(1)),
+            p(1, false, Req::RPreInvoice(1), Req::RPreInvoice(2)),
+            p(1, false, Req::RNewChan(50), Req::RForget(50)),
+            p(1, false, Req::RNewChan(50), Req::RNewChan(50)),
+            p(1, false, Req::RTipInfo, Req::AddBlock(0)),
+            p(1, false, Req::RPreKeysend(1), Req::Heartbeat),
+            p(1, false, Req::RForget(1), Req::Validate(0)),
+            p(1, false, Req::RHeartbeat, Req::RForget(1)),
+            p(1, false, Req::RHeartbeat, Req::Validate(0)),
+            p(1, false, Req::RHeartbeat, Req::RNewChan(50)),
+            p(1, false, Req::HSignLocal(0), Req::Keysend(1)),
+            p(1, false, Req::HSignLocal(0), Req::HVal(0, 0)),
+            p(1, false, Req::HSignLocal(0), Req::Balance),
         ];
         let mut out = Vec::new();
         for sc in &pairs {
             self.enumerate_pair(sc, &mut out);
+        }
+        // (1b) pairs GENERATED from the lock table of the current sources (translate/x_locks.py ->
+        //      gen_pairs.rs): every two request kinds whose programs touch a common lock class, one
+        //      representative request each, complete single-preemption enumeration in both orders.
+        let mut seen: BTreeSet<String> = pairs.iter().map(|sc| scenario_lines(sc).join("|")).collect();
+        //      Quick tier: a third of them per run, selected by the seed (seeds 1..3 cover all); thorough: all.
+        for (gi, (ka, kb)) in gen_pairs::GEN_PAIRS.iter().enumerate() {
+            if self.quick && (gi as u64 + self.seed) % 3 != 0 {
+                continue;
+            }
+            if let (Some(a), Some(b)) = (kind_representative(ka), kind_representative(kb)) {
+                let stub = a == Req::SetupChan || b == Req::SetupChan;
+                let sc = p(1, stub, a, b);
+                if seen.insert(scenario_lines(&sc).join("|")) {
+                    self.enumerate_pair(&sc, &mut out);
+                }
+            }
         }
         // (2) three-thread scenarios and the known slot<->monitor cycle under random/PCT schedules
         let scs = vec![
@@ -2188,6 +2432,6 @@ pub fn try_req() {
     }
 }
 
-pub fn groups() -> Vec<Box<dyn Group>> {
-    vec![Box::new(C20 { serial_cache: RefCell::new(HashMap::new()), run_cache: RefCell::new(HashMap::new()), current: RefCell::new(None), edge_src: RefCell::new(BTreeMap::new()), cycles_done: RefCell::new(BTreeSet::new()), directed: RefCell::new(Default::default()), directed_stop: RefCell::new(BTreeSet::new()) })]
+pub fn groups(quick: bool, seed: u64) -> Vec<Box<dyn Group>> {
+    vec![Box::new(C20 { quick, seed, serial_cache: RefCell::new(HashMap::new()), run_cache: RefCell::new(HashMap::new()), current: RefCell::new(None), edge_src: RefCell::new(BTreeMap::new()), cycles_done: RefCell::new(BTreeSet::new()), directed: RefCell::new(Default::default()), directed_stop: RefCell::new(BTreeSet::new()) })]
 }
